@@ -5,17 +5,17 @@ Open Scope nat_scope.
 
 (* any machine, any handlers, any state: a request that is unknown or not allowed in the current state
    raises and changes nothing *)
-Theorem C18_disallowed_raises_unchanged : forall m h fuel st name,
+Theorem C18_disallowed_raises_unchanged : forall m h os fuel st name,
   (find_trans m name = None \/ exists srcs dst, find_trans m name = Some (srcs, dst) /\ existsb (Nat.eqb (cur st)) srcs = false) ->
-  perform m h (S fuel) st name = (st, true).
+  perform m h os (S fuel) st name = (st, true).
 Proof. exact disallowed_unchanged. Qed.
 Print Assumptions C18_disallowed_raises_unchanged.
 
 (* any flat machine (any number of states and transitions), any programs of nested requests issued from
-   enter and called handlers to any depth: whenever the outermost request returns normally, exactly the
+   enter and called handlers (repeating or one-shot) to any depth: whenever the outermost request returns normally, exactly the
    current state reports itself active *)
-Theorem C18_flat_nested_consistent : forall m h, flat m -> trans_in_range m -> quiet_leave h ->
-  forall fuel st name, inv m st -> snd (perform m h fuel st name) = false -> inv m (fst (perform m h fuel st name)).
+Theorem C18_flat_nested_consistent : forall m h os, flat m -> trans_in_range m -> quiet_leave h ->
+  forall fuel st name, inv m st -> snd (perform m h os fuel st name) = false -> inv m (fst (perform m h os fuel st name)).
 Proof. exact flat_nested_consistent. Qed.
 Print Assumptions C18_flat_nested_consistent.
 
@@ -37,7 +37,7 @@ Print Assumptions C18_conformance_means.
 (* KNOWN FINDING C18-nested-hierarchical: in a hierarchical machine a request made from an enter handler can
    leave a state active that is neither current nor an ancestor of the current state *)
 Theorem C18_nested_hierarchical_refuted :
-  let '(st, raised) := perform cex_machine cex_handlers 8 (start_state cex_machine 0) "go"%string in
+  let '(st, raised) := perform cex_machine cex_handlers never_one_shot 8 (start_state cex_machine 0) "go"%string in
   raised = false /\ cur st = 0 /\ active st = [true; true; false] /\ active_after (m_parent cex_machine) 0 = [true; false; false].
 Proof. exact nested_hierarchical_refuted. Qed.
 Print Assumptions C18_nested_hierarchical_refuted.
